@@ -4,6 +4,8 @@ import DclabModel.DriveUtil
 
     new                       fresh file (no dataset)
     write <v> <v> …           `store_feature` in append mode      replace <v> …   in replace mode
+    raw <v> …                 dataset made with raw h5py: these values, no attributes
+    poke <k> <v>              attribute k (0 min, 1 max, 2 mean) overwritten with v (raw h5py)
     strip <abc>               remove attributes (bits: min max mean) with raw h5py
     copy                      `rtdc_copy`                         export <bits>   filtered export
     stored                    → `<min> <max> <mean>` as stored (`-` = absent)
@@ -51,6 +53,12 @@ def handle (d : D) (line : String) : D × String :=
   | ["strip", bits] => match parseBools bits with
     | [a, b, c] => both d (fun _ ds => ds.map (fun s => strip s a b c))
     | _ => (d, "bad-op")
+  | "raw" :: vs => match vs.mapM parseVal with
+    | some l => both d (fun _ _ => some { data := l, mn := none, mx := none, mean := none })
+    | none => (d, "bad-op")
+  | ["poke", k, v] => match k.toNat?, parseVal v with
+    | some k, some v => both d (fun _ ds => ds.map (fun s => setAttr s k v))
+    | _, _ => (d, "bad-op")
   | ["copy"] => both d (fun _ ds => ds.map copyDs)
   | ["export", bits] =>
     both d (fun r ds => match ds with
